@@ -343,7 +343,8 @@ be_filter_process_input(struct bufferevent_filtered *bevf,
 		 !be_readbuf_full(bevf, state));
 	bevf->processing_input = 0;
 
-	if (*processed_out && (bev->enabled & EV_READ))
+	if (*processed_out && (bev->enabled & EV_READ) &&
+	    !BEV_UPCAST(bev)->read_suspended)
 		BEV_RESET_GENERIC_READ_TIMEOUT(bev);
 
 	return res;
